@@ -6,7 +6,7 @@ from common import enc_keys, enc_pos
 
 
 def gen_bounds(rng, nv):
-    mode = rng.choice(['unit', 'wide', 'narrow', 'degenerate', 'mixed', 'int', 'huge', 'offset', 'intlb', 'intub', 'frozen', 'frozen'])
+    mode = rng.choice(['unit', 'wide', 'narrow', 'degenerate', 'mixed', 'int', 'huge', 'offset', 'intlb', 'intub', 'frozen', 'frozen', 'tinyscale', 'farscale', 'nearequal'])
     lb, ub = [], []
     for j in range(nv):
         if mode == 'unit':
@@ -23,6 +23,12 @@ def gen_bounds(rng, nv):
             l, u = -(j + 1), j + 2
         elif mode == 'huge':
             l, u = -1e12, 1e12
+        elif mode == 'tinyscale':
+            l, u = (1 + 4 * j) * 1e-9, (2 + 4 * j) * 1e-9
+        elif mode == 'farscale':
+            l, u = 1e8 + 2 * j, 1e8 + 2 * j + 1
+        elif mode == 'nearequal':
+            l, u = 1e5 + 0.5 * j, 1e5 + 0.5 * j + 0.5
         elif mode == 'frozen':
             # every variable frozen (lb == ub) at a value that is not a short binary fraction: the draw must return
             # exactly that value
